@@ -51,8 +51,16 @@ def case_strategy(draw):
     mode = src.pick(modes)
     info = grammar.world_info(wd)
     hist = [ops.gen_new(src, info)]
+    twin_copy = mode in ("self", "parent") and src.chance(1, 6)
+    if twin_copy:
+        next(c for c in wd["classes"] if c["name"] == "M")["post_init_deepcopy"] = True
     for _ in range(src.choice(13)):
-        hist.append(ops.gen_op(src, info, inplace=None, bad_rate=(1, 6), allow=("scalar", "element", "top", "deepcopy") + (("nested",) if mode == "child" else ())))
+        if twin_copy and src.chance(1, 4):
+            # in-place attempt on the copy that __post_init__ took of the instance under construction
+            sub = ops.gen_op(src, info, inplace=True, bad_rate=(0, 1), allow=("scalar", "element"))
+            hist.append({"t": "nested", "path": [["attr", "twin"]], "op": sub})
+            continue
+        hist.append(ops.gen_op(src, info, inplace=None, bad_rate=(1, 6), allow=("scalar", "element", "top", "deepcopy", "unmanaged") + (("nested",) if mode == "child" else ())))
     return {"world": wd, "mode": mode, "ops": hist}
 
 
